@@ -48,7 +48,15 @@ pub fn build_boxed(case: &RespCase) -> tiny_http::ResponseBox {
         .boxed(),
         Ctor::FromString => Response::from_string(body_text(case.body_seed, case.body_len, case.utf8)).with_status_code(case.status).boxed(),
         Ctor::FromData => Response::from_data(vcore::resp::body_bytes(case.body_seed, case.body_len)).with_status_code(case.status).boxed(),
-        Ctor::Empty => Response::empty(case.status).boxed(),
+        // (the only Clone impl: Response<io::Empty>; a clone must carry the same policy state)
+        Ctor::Empty => {
+            let r = Response::empty(case.status);
+            if case.body_seed % 2 == 0 {
+                r.clone().boxed()
+            } else {
+                r.boxed()
+            }
+        }
         Ctor::NewEmpty => Response::new_empty(StatusCode(case.status)).boxed(),
         Ctor::FromFile => {
             let dir = format!("{}/target/tmp", vcore::report::verif_root());
